@@ -32,6 +32,7 @@ func AbsErr(got float64, want *big.Float) float64 {
 // the generated magnitude range fit in 400 bits), plus min/max and Σ|wx|.
 type Acc struct {
 	N        int // number of entries (with multiplicity of insertion, zero weights included)
+	Ops      int // depth of the lineage of library operations (Add, Combine) that produced the summarised object; 0 = unknown (use N)
 	W        *big.Float
 	S1, S2   *big.Float
 	SumAbs   float64 // Σ|w·x| (float64 is enough: used only inside tolerances)
@@ -74,9 +75,49 @@ func (a *Acc) AddW(x, w float64) {
 
 func (a *Acc) Add(x float64) { a.AddW(x, 1) }
 
+// AddN adds k copies of x (k may be astronomically large: counts built by
+// repeated doubling).
+func (a *Acc) AddN(x float64, k int) {
+	bx, bk := BF(x), BI(k)
+	kx := nb().Mul(bk, bx)
+	a.N += k
+	a.W.Add(a.W, bk)
+	a.S1.Add(a.S1, kx)
+	a.S2.Add(a.S2, nb().Mul(kx, bx))
+	a.SumAbs += math.Abs(x) * float64(k)
+	a.SumAbsW += float64(k)
+	if ax := math.Abs(x); ax > a.MaxAbs {
+		a.MaxAbs = ax
+	}
+	if math.IsNaN(a.Min) || x < a.Min {
+		a.Min = x
+	}
+	if math.IsNaN(a.Max) || x > a.Max {
+		a.Max = x
+	}
+}
+
+// lin is the factor that grows with the number of rounding steps: the number
+// of library operations when known, the number of entries otherwise.
+func (a *Acc) lin() float64 {
+	if a.Ops > 0 && a.Ops < a.N {
+		return float64(a.Ops + 4)
+	}
+	return float64(a.N + 4)
+}
+
 // Merge adds all of o's entries to a.
 func (a *Acc) Merge(o *Acc) {
 	a.N += o.N
+	if a.Ops > 0 || o.Ops > 0 {
+		// rounding steps along the longest lineage: relative errors of the two
+		// parts do not add up in a merge, the larger one carries over (plus the
+		// merge's own few roundings)
+		if o.Ops > a.Ops {
+			a.Ops = o.Ops
+		}
+		a.Ops++
+	}
 	a.W.Add(a.W, o.W)
 	a.S1.Add(a.S1, o.S1)
 	a.S2.Add(a.S2, o.S2)
@@ -141,7 +182,7 @@ const tolC = 8.0
 
 // TolSum bounds |Σwx computed - exact| for any summation order.
 func (a *Acc) TolSum() float64 {
-	return tolC*float64(a.N+4)*Eps*a.SumAbs + math.SmallestNonzeroFloat64
+	return tolC*a.lin()*Eps*a.SumAbs + math.SmallestNonzeroFloat64
 }
 
 // TolMean bounds the absolute error of a mean computed by any stable updating
@@ -151,7 +192,7 @@ func (a *Acc) TolSum() float64 {
 // weighted mean magnitude (which can be far smaller when a large value has a
 // small weight).
 func (a *Acc) TolMean() float64 {
-	return tolC*float64(a.N+4)*Eps*a.MaxAbs + math.SmallestNonzeroFloat64
+	return tolC*a.lin()*Eps*a.MaxAbs + math.SmallestNonzeroFloat64
 }
 
 // TolVar bounds the absolute error of the sample variance:
@@ -160,9 +201,13 @@ func (a *Acc) TolVar() float64 {
 	v := F(a.Var())
 	ms := F(a.MeanSq())
 	n := float64(a.N + 4)
+	// the linear factor counts rounding steps (operations); the square-root
+	// factor is about the DATA (|delta| between two parts can reach sigma*sqrt(2n)
+	// for n samples), so it keeps the number of entries
+	lin := a.lin()
 	// sqrt(v)*sqrt(v+ms), not sqrt(v*(v+ms)): the product under- or overflows for
 	// data scaled towards the ends of the double range
-	return tolC*n*math.Sqrt(n)*Eps*math.Sqrt(v)*math.Sqrt(v+ms) + 4*n*Eps*Eps*ms + math.SmallestNonzeroFloat64
+	return tolC*lin*math.Sqrt(n)*Eps*math.Sqrt(v)*math.Sqrt(v+ms) + 4*lin*Eps*Eps*ms + math.SmallestNonzeroFloat64
 }
 
 // TolStd bounds the absolute error of the standard deviation.
@@ -180,5 +225,12 @@ func (a *Acc) TolStd() float64 {
 // non-negative terms: well conditioned).
 func (a *Acc) TolRMS() float64 {
 	r := math.Sqrt(F(a.MeanSq()))
-	return tolC*float64(a.N+4)*Eps*r + math.SmallestNonzeroFloat64
+	// the mean of squares is maintained like the mean (m += (x*x - m)*w/W and its
+	// merge form): its absolute error scales with the largest square that
+	// carries weight, not with the result - a few huge values merged with very
+	// many tiny ones leave a tiny result with the huge values' rounding error
+	if r <= 0 {
+		return tolC*a.lin()*Eps*a.MaxAbs + math.SmallestNonzeroFloat64
+	}
+	return tolC*a.lin()*Eps*(r+a.MaxAbs*a.MaxAbs/(2*r)) + math.SmallestNonzeroFloat64
 }
